@@ -586,6 +586,13 @@ class ExperimentPackage(StorageStructurePathResolver):
                 if not os.path.exists(targetPath):
                     os.makedirs(targetPath)
 
+                real_target = os.path.join(os.path.realpath(targetPath), '')
+
+                def is_beneath_target(directory):
+                    # VV: True if the real location of directory (links resolved) is targetPath or lies below it
+                    real_dir = os.path.join(os.path.realpath(directory), '')
+                    return os.path.commonprefix([real_target, real_dir]) == real_target
+
                 # VV: now populate the targetPath using the targetFolder: sourceFolder instructions of manifest
                 for targetFolder in manifest:
                     sourceFolder = manifest[targetFolder]
@@ -594,8 +601,17 @@ class ExperimentPackage(StorageStructurePathResolver):
                         raise ValueError("Manifest entry %s (%s) should not be an absolute path" % (
                             targetFolder, sourceFolder))
 
+                    if os.pardir in targetFolder.split(os.sep):
+                        raise ValueError("Manifest entry %s (%s) should not contain parent-directory components" % (
+                            targetFolder, sourceFolder))
+
                     sourceFolder, method = sourceFolder.rsplit(':', 1)
                     target_folder_path = os.path.join(targetPath, targetFolder)
+
+                    # VV: an earlier entry may have linked a folder that this entry is nested in
+                    if not is_beneath_target(os.path.dirname(target_folder_path.rstrip(os.sep))):
+                        raise ValueError("Manifest entry %s (%s) would be created outside %s" % (
+                            targetFolder, sourceFolder, targetPath))
 
                     if method == 'copy':
                         logger.info("Copying %s to %s" % (sourceFolder, targetFolder))
@@ -613,9 +629,14 @@ class ExperimentPackage(StorageStructurePathResolver):
                     # in it which the flowir we're copying into the conf dir $imports
                     os.makedirs(conf_dir)
                 if file_format == "dsl":
-                    shutil.copyfile(path, os.path.join(conf_dir, "dsl.yaml"))
+                    package_file = os.path.join(conf_dir, "dsl.yaml")
                 else:
-                    shutil.copyfile(path, os.path.join(conf_dir, "flowir_package.yaml"))
+                    package_file = os.path.join(conf_dir, "flowir_package.yaml")
+                # VV: the manifest may have linked conf (or the file itself) to a location outside the instance
+                if not is_beneath_target(package_file):
+                    raise ValueError("Manifest places %s outside %s, cannot store %s in it" % (
+                        package_file, targetPath, path))
+                shutil.copyfile(path, package_file)
             except OSError as e:
                 raise_with_traceback(experiment.model.errors.PackageCreateError(e, targetPath, path))
 
